@@ -16,7 +16,7 @@ type c11 struct{}
 func (c11) ID() string    { return "C11" }
 func (c11) Level() string { return "exploration" }
 func (c11) Rule() string {
-	return "27 default-able facts (default network membership; implicit default network; <project>_<key> names of network/volume/secret/config; depends_on implied by links, network_mode/ipc/pid service: namespaces, volumes_from; build context; dockerfile; port protocol; port mode; secret target; depends_on required; depends_on short list; env_file required; device count; pull_policy alias), each carried by its own service: every subset of <=3 facts left implicit and every subset of <=3 facts written explicitly (thorough: all 2^14 subsets of the first 14), delivered by main file / override / include / extended base (other file and same file), and (main file, extended base) under a later layer that restates the same entry in its other spelling and adds other entries to the same attributes; oracle: implicit model == all-explicit model delivered the same way. Plus, per fact, an explicit non-default value that must survive, an implied depends_on that must not replace a declared one, and the `default` network present iff used, over every assignment of 3 services to 6 ways of using or not using it (implicit, explicit list, explicit mapping, with another network, network_mode, another network only). distinct = distinct subsets x origins"
+	return "27 default-able facts (default network membership; implicit default network; <project>_<key> names of network/volume/secret/config; depends_on implied by links, network_mode/ipc/pid service: namespaces, volumes_from; build context; dockerfile; port protocol; port mode; secret target; depends_on required; depends_on short list; env_file required; device count; pull_policy alias), each carried by its own service: every subset of <=3 facts left implicit and every subset of <=3 facts written explicitly (thorough: all 2^14 subsets of the first 14), delivered by main file (also declaring a `name:` other than the imposed project name) / override / include / extended base (other file and same file), and (main file, extended base) under a later layer that restates the same entry in its other spelling and adds other entries to the same attributes; oracle: implicit model == all-explicit model delivered the same way. Plus, per fact, an explicit non-default value that must survive, an implied depends_on that must not replace a declared one, and the `default` network present iff used, over every assignment of 3 services to 6 ways of using or not using it (implicit, explicit list, explicit mapping, with another network, network_mode, another network only). distinct = distinct subsets x origins"
 }
 func (c11) Assumptions() []string {
 	return []string{"projects compared with go-cmp (EquateEmpty) over all model fields"}
@@ -228,6 +228,10 @@ func c11scn(facts []c11fact, doc, origin string) *Scn {
 	case "include":
 		files["compose.yaml"] = "include:\n  - ./inc.yaml\nservices:\n  extra:\n    image: x\n    network_mode: none\n"
 		files["inc.yaml"] = doc
+	case "main+declared-name":
+		// the file declares a name that is neither normalised nor the effective one (the caller imposes "proj"):
+		// implicit resource names are built from the effective project name
+		files["compose.yaml"] = "name: \"Declared.Name\"\n" + doc
 	case "main+refine":
 		// a later file touches the same attributes, but other entries of them
 		files["compose.yaml"] = doc
@@ -284,7 +288,7 @@ func (c11) Run(c *core.Ctx) {
 			add(m)
 		}
 	}
-	for _, origin := range []string{"main", "override", "include", "main+refine", "extends", "extends+refine", "extends-same-file", "extends-same-file+refine"} {
+	for _, origin := range []string{"main", "override", "include", "main+declared-name", "main+refine", "extends", "extends+refine", "extends-same-file", "extends-same-file+refine"} {
 		origin := origin
 		var ref *types.Project
 		getRef := func() (*types.Project, error) {
